@@ -589,45 +589,36 @@ theorem clean3_orSlash {u : Bytes} (h : Clean3 u) : Clean3 (if u.isEmpty then st
   · exact clean3_of_c3 (by decide)
   · exact h
 
-theorem requestLine_count (m u : Bytes) :
-    (requestLine m u).count 32 = (if m.isEmpty then strGet else m).count 32 + (if u.isEmpty then strSlash else u).count 32 + 2 := by
+/-- /repo 910b0dd: whatever method and target hold, what `appendRequestLinePart` writes has no SP, CR, LF -/
+theorem reqLinePart_clean3 (p : Bytes) : Clean3 (reqLinePart p) := reqLinePart_clean p
+
+theorem requestLine_count (m u : Bytes) : (requestLine m u).count 32 = 2 := by
   have h11 : strHTTP11.count 32 = 0 := by decide
-  simp only [requestLine, List.count_append, h11]
+  simp only [requestLine, List.count_append, h11, count_clean3 (reqLinePart_clean3 _)]
   simp
-  omega
 
-/-- the request line has exactly two SP and no CR/LF when method and target have none of the three -/
-theorem requestLine_single {m u : Bytes} (hm : Clean3 m) (hu : Clean3 u) :
+/-- FULL strength: for every method and every target the request line has exactly two SP and no CR/LF -/
+theorem requestLine_single (m u : Bytes) :
     (requestLine m u).count 32 = 2 ∧ ∀ x ∈ requestLine m u, x ≠ 13 ∧ x ≠ 10 := by
-  refine ⟨?_, ?_⟩
-  · rw [requestLine_count, count_clean3 (clean3_orGet hm), count_clean3 (clean3_orSlash hu)]
-  · intro x hx
-    simp only [requestLine, List.mem_append, List.mem_singleton] at hx
-    have h11 : Clean3 strHTTP11 := clean3_of_c3 (by decide)
-    rcases hx with (((h | h) | h) | h) | h
-    · exact (clean3_orGet hm x h).2
-    · subst h; decide
-    · exact (clean3_orSlash hu x h).2
-    · subst h; decide
-    · exact (h11 x h).2
+  refine ⟨requestLine_count m u, ?_⟩
+  intro x hx
+  simp only [requestLine, List.mem_append, List.mem_singleton] at hx
+  have h11 : Clean3 strHTTP11 := clean3_of_c3 (by decide)
+  rcases hx with (((h | h) | h) | h) | h
+  · exact (reqLinePart_clean3 _ x h).2
+  · subst h; decide
+  · exact (reqLinePart_clean3 _ x h).2
+  · subst h; decide
+  · exact (h11 x h).2
 
-/-- and only then: these are EXACTLY the inputs for which the line is well formed -/
-theorem requestLine_single_conv {m u : Bytes}
-    (h : (requestLine m u).count 32 = 2 ∧ ∀ x ∈ requestLine m u, x ≠ 13 ∧ x ≠ 10) : Clean3 m ∧ Clean3 u := by
-  obtain ⟨hc, hn⟩ := h
-  rw [requestLine_count] at hc
-  have hM : (if m.isEmpty then strGet else m).count 32 = 0 := by omega
-  have hU : (if u.isEmpty then strSlash else u).count 32 = 0 := by omega
-  have key : ∀ (d b : Bytes), (if b.isEmpty then d else b).count 32 = 0 →
-      (∀ x ∈ (if b.isEmpty then d else b), x ∈ requestLine m u) → Clean3 b := by
-    intro d b h0 hsub x hx
-    have hne : b.isEmpty = false := by cases b with | nil => cases hx | cons _ _ => rfl
-    simp only [hne, Bool.false_eq_true, if_false] at h0 hsub
-    have h32 : x ≠ 32 := fun he => (List.count_eq_zero.mp h0) (he ▸ hx)
-    exact ⟨h32, hn x (hsub x hx)⟩
-  refine ⟨key strGet m hM ?_, key strSlash u hU ?_⟩
-  · intro x hx; simp only [requestLine, List.mem_append]; exact Or.inl (Or.inl (Or.inl (Or.inl hx)))
-  · intro x hx; simp only [requestLine, List.mem_append]; exact Or.inl (Or.inl (Or.inr hx))
+/-- a part is written unchanged exactly when it has no SP, CR, LF (otherwise these bytes appear as `%20`, `%0D`, `%0A`) -/
+theorem reqLinePart_unchanged_iff (p : Bytes) : reqLinePart p = p ↔ Clean3 p := by
+  constructor
+  · intro h; rw [← h]; exact reqLinePart_clean3 p
+  · intro h
+    exact reqLinePart_id p (fun x hx => by
+      have := h x hx
+      simp [lineSpecial, this.1, this.2.1, this.2.2])
 
 set_option maxRecDepth 100000 in
 theorem tbl_path_c3 : allBytes (fun c => pathShouldEscape c || c3 c) = true := by decide +kernel
